@@ -26,7 +26,10 @@ type c08Config struct {
 	Weights    []int  `json:"op_weights"`
 	PresentPct int    `json:"present_pct"`
 	PutNewPct  int    `json:"put_new_key_pct"`
-	SweepEvery int    `json:"sweep_every"`
+	// Uptime: accesses the store is assumed to have served before this history
+	// (its logical clock starts there): long-lived caches are part of "every history".
+	Uptime     int64 `json:"simulated_earlier_accesses"`
+	SweepEvery int   `json:"sweep_every"`
 }
 
 // forceDeep (experiments only, VERIF_C08_DEEP=1) makes every non-churn run a deep run.
@@ -171,7 +174,13 @@ type c08Step struct {
 func runC08(ch chooser.Chooser, st *Stats, mk cacheMaker) *Outcome {
 	sched.Progress()
 	cfg := drawC08Config(ch)
-	env := &cacheEnv{limit: int64(cfg.Limit), sized: cfg.Sized, cbs: make([][]KV, 1), cur: func() int { return 0 }}
+	if ch.Draw(6, "uptime?") == 5 {
+		// just below 2^31, 2^32 and 2^62 (minus a little, so that the boundary
+		// is crossed during the history)
+		base := []int64{1 << 31, 1 << 32, 1 << 62}[ch.Draw(3, "uptime")]
+		cfg.Uptime = base - int64(1+ch.Draw(300, "uptimeoff"))
+	}
+	env := &cacheEnv{limit: int64(cfg.Limit), sized: cfg.Sized, cbs: make([][]KV, 1), cur: func() int { return 0 }, uptime: cfg.Uptime}
 	var c cacheAPI
 	if p := safely(func() { c = mk(env) }); p != "" {
 		return &Outcome{Violation: &Violation{"panic", "constructing the cache panicked: " + p}}
@@ -285,6 +294,9 @@ func runC08(ch chooser.Chooser, st *Stats, mk cacheMaker) *Outcome {
 				}
 			}
 		}
+	}
+	if cfg.Uptime > 0 {
+		st.Inc("fault:long_uptime_clock_near_2^31_2^32_2^62", 1)
 	}
 	st.Max("max:entries_held", int64(m.maxLen))
 	if m.maxLen >= 7 {
